@@ -185,7 +185,8 @@ ADDED3 = {
  'C04': 'Third wave: kernel tiling also checks each way round a loop separately (a path that advances the element index without writing is a hole).',
  'C05': 'Third wave: scalar parameters used as parity-relative / bit positions type their call-site arguments (x - m is not a conversion); decode / reconstruct '
         'operations do not write through the erasure list (R15f).',
- 'C06': 'Third wave: the two-data planner hands on the element it did not plan (R06h, constant propagation over a concrete two-element list); R05f shared.',
+ 'C06': 'Third wave: the two-data planner hands on the element it did not plan (R06h, constant propagation over a concrete two-element list); R05f shared. '
+        'R06i: every search for a connected parity counts the element it asks about among the missing data (reported defect F19, repaired).',
  'C07': 'Third wave: R10a and R15d shared (checksum bytes and history independence of header bytes).',
  'C10': 'Third wave: R12d shared.',
  'C12': 'Third wave: the metadata backend_version is judged only by ops->is_compatible_with (R12e); R09b shared.',
